@@ -2,7 +2,7 @@
 
 from __future__ import annotations
 
-from .. import gen, oracles as O, rig
+from .. import gen, oracles as O, rig, tconc
 from ..view import View
 from . import common
 
@@ -90,6 +90,8 @@ def work(ctx, tier):
             _one(ctx, sc, e, stats)
         ctx.inc("boundary_scenarios")
     common.crossing_slice(ctx, tier, common.rng_for(ctx, "crossing"), lambda sc, e: _one(ctx, sc, e, stats))
+    # two threads on one policy object with a per-class strategy table, incl. the very first failures a fresh object handles
+    tconc.thread_slice(ctx, tier, common.rng_for(ctx, "threads"), ["delays"], budget=False, breaker=False, first_use=True, nprog=2)
     common.flush_stats(ctx, stats)
 
 
@@ -107,6 +109,8 @@ def conclude(ctx):
         "attempt_numbers_checked_after_a_contained_hook_error": (ctx.cnt["attempt_numbers_checked_after_a_contained_hook_error"], 200),
     }
     common.crossing_floors(ctx, floors)
+    if ctx.nshards <= 2 or True:
+        floors["schedules_at_level:lines"] = (ctx.cnt["schedules_at_level:lines"], 100)
     return dict(
         rule=(
             "random scenarios with arbitrary strategy tables (any subset of the 8 classes, default present/absent, legacy/context signatures), return values from "
@@ -123,6 +127,8 @@ def conclude(ctx):
 
 
 def replay(data):
+    if "tspec" in data["payload"]:
+        return tconc.replay(data["payload"])
     sc = data["payload"].get("scenario")
     if data.get("key") == "wrong-attempt-number":
         import collections
